@@ -78,7 +78,7 @@ package keygen
 
 //@ define kgChRes(round, ch, Vc) = (isnil(sentf(ch, 0, "unWrappedErr")) ==> (kgRowEd(round, sentf(ch, 0, "pjVs")) && arr(sentf(ch, 0, "pjVs")) != arr(Vc)))
 //@ func (*round3).Start
-//@   deadpoints 5
+//@   deadpoints 8
 //@   note the error branches after ECPoint.Add (loops 7 and 9) and after NewECPoint of the summed key are unreachable on the Edwards curve (lemma L-edwards-closed)
 //@   props C06 C05 C03
 //@   requires round != nil && round.round2 != nil && round.round2.round1 != nil && round.round2.round1.base != nil && edKgWF(round)
